@@ -3,13 +3,10 @@ from __future__ import annotations
 
 import ast
 
-from ..source import norm, const_value, walk_no_nested
 from ..specs import operators as optab
 from . import coretypes as ct
 from . import array_folds as af
 from . import core_folds as cf
-from .common import (calls_in, is_name, params, single_return, root_name, returns_of, stores_in, flatten_targets,
-                     attr_chain, bind_call)
 
 EXPLANATION = '(R1) in-place dunders: same operation/strictness as the out-of-place sibling, out=self; Vector forwards them per component; (R2) out=: numpy receives the buffer of the out Array, the unit is stored on it and the same object returned; (R3) operands unchanged by every binary operator (Array and Vector); (R4) copy()/copy.copy/deepcopy of Array and Vector on fresh buffers (copy protocol resolved through the MRO), deepcopy of containers independent, container copy() shallow with its own metadata dict; (R6) Array.__init__ keeps the buffer it is given, __getitem__ wraps the numpy index result, Vector maps per component.'
 NOT_DECIDED = "numpy's own view/copy rules for fancy indexing; buffers shared through numpy operations outside osyris"
